@@ -366,13 +366,46 @@ Proof.
   - apply IHl; auto.
 Qed.
 
-Lemma ps_init_shape : forall req s, 0 <= req <= two31 -> ps_init req true = Some s ->
+Lemma zfrom_map_seq : forall k a, zfrom k (Z.of_nat a) = map Z.of_nat (seq a k).
+Proof.
+  induction k; intros a; cbn [zfrom seq map]; [reflexivity|]. f_equal.
+  replace (Z.of_nat a + 1) with (Z.of_nat (S a)) by lia. apply IHk.
+Qed.
+
+(* a request whose power of two does not fit an unsigned int (> 2^31) is refused, malloc or not;
+   every other request is accepted when malloc succeeds *)
+Lemma ps_init_refuses : forall req ok, two31 < req -> ps_init req ok = None.
+Proof.
+  intros req ok H. unfold ps_init, ps_init_gen.
+  replace (req >? 0) with true by (unfold two31 in *; lia). replace (req >? two31) with true by lia. reflexivity.
+Qed.
+
+Lemma ps_init_some_range : forall req ok s, ps_init req ok = Some s -> req <= two31.
+Proof.
+  intros req ok s H. destruct (Z_le_gt_dec req two31) as [L | G]; [exact L|].
+  rewrite ps_init_refuses in H by lia. discriminate.
+Qed.
+
+Lemma ps_init_accepts : forall req, req <= two31 -> exists s, ps_init req true = Some s.
+Proof.
+  intros req H. unfold ps_init, ps_init_gen.
+  replace ((if req >? 0 then req else 1) >? two31) with false
+    by (destruct (req >? 0) eqn:E; unfold two31 in *; lia).
+  cbn [andb negb]. eauto.
+Qed.
+
+Lemma ps_init_shape : forall req s, 0 <= req < two32 -> ps_init req true = Some s ->
   is_pow2_cap (pcap s) /\ (if req >? 0 then req else 1) <= pcap s /\
   slots s = repeat free_slot (Z.to_nat (pcap s)) /\ pp s = map Z.of_nat (seq 0 (Z.to_nat (pcap s))) /\
   alloc_index s = 0 /\ free_index s = 0 /\ live s = [].
 Proof.
-  intros req s Hr H. unfold ps_init, ps_init_gen in H. cbn [negb] in H. inversion H; subst; clear H.
-  cbn [slots pp pcap alloc_index free_index live].
+  intros req s Hr0 H. pose proof (ps_init_some_range _ _ _ H) as Hle.
+  assert (Hr : 0 <= req <= two31) by lia.
+  unfold ps_init, ps_init_gen in H.
+  replace ((if req >? 0 then req else 1) >? two31) with false in H
+    by (destruct (req >? 0) eqn:E; unfold two31 in *; lia).
+  cbn [andb negb] in H. inversion H; subst; clear H.
+  cbn [slots pp pcap alloc_index free_index live]. rewrite (zfrom_map_seq _ 0).
   set (c := if req >? 0 then req else 1).
   assert (Hc : 1 <= c <= two31) by (unfold c; destruct (req >? 0) eqn:E; unfold two31 in *; lia).
   destruct (next_pow_of_2_spec c Hc). repeat split; auto; lia.
@@ -417,7 +450,7 @@ Proof.
   - intros i Hi. rewrite Hzp by auto. lia.
 Qed.
 
-Lemma ps_init_inv : forall req s a, 0 <= req <= two31 -> ps_init req true = Some s ->
+Lemma ps_init_inv : forall req s a, 0 <= req < two32 -> ps_init req true = Some s ->
   ps_inv s /\ ps_inv (ps_preset s a).
 Proof.
   intros req s a Hr H. destruct (ps_init_shape req s Hr H) as (Hc & _ & Hs & Hp & Ha & Hf & Hl).
@@ -674,7 +707,7 @@ Qed.
 (* the invariant holds in every state reachable from init (+ optional cursor preset),
    for every requested capacity; in particular no operation touches memory
    outside slots[] / pp_slots[] (ps_run never yields None) *)
-Theorem ps_reachable : forall req a s0 ops, 0 <= req <= two31 -> ps_init req true = Some s0 ->
+Theorem ps_reachable : forall req a s0 ops, 0 <= req < two32 -> ps_init req true = Some s0 ->
   Forall op_ok ops ->
   exists s' rs, ps_run (ps_preset s0 a) ops = Some (s', rs) /\ ps_inv s' /\
                 ps_iter s' = ref_run [] ops rs /\ spec_run_ok (pcap s0) [] ops rs.
